@@ -106,14 +106,15 @@ package couchbase
 
 //@ func NewCBMembership
 //@ params config client bus
-//@ props C14 C15
+//@ props C14 C15 C17
 //@ requires config != nil && client != nil && bus != nil && logger.Log != nil
 //@ let cbm = as(result, "*cbMembership")
 //@ panics.wrong_metadata[C15] config.Metadata.Type != "couchbase"
 //@ ensures.keys_reserved[C14] result != nil && typeis(result, "*cbMembership") && hasprefix(str(cbm.id), helpers.Prefix) && hasprefix(str(cbm.instanceAll), helpers.Prefix)
 //@ ensures.keys_shape[C14] str(cbm.instanceAll) == helpers.Prefix + config.Dcp.Group.Name + ":" + "instance" + ":all"
+//@ ensures.documents_location[C17] cbm.scopeName == dret("config.(*Dcp).GetCouchbaseMetadata", 0, 0).Scope && cbm.collectionName == dret("config.(*Dcp).GetCouchbaseMetadata", 0, 0).Collection && cbm.membershipConfig == dret("config.(*Dcp).GetCouchbaseMembership", 0, 0) && darg("config.(*Dcp).GetCouchbaseMetadata", 0, c) == config && darg("config.(*Dcp).GetCouchbaseMembership", 0, c) == config
 //@ ensures.registered[C14] dcalls("couchbase.(*cbMembership).register") == 1 && darg("couchbase.(*cbMembership).register", 0, h) == cbm
-//@ modifies calls("couchbase.(*cbMembership).register"), calls("couchbase.(*cbMembership).createIndex"), calls("couchbase.CreatePath"), calls("couchbase.UpdateDocument"), calls("couchbase.CreateDocument"), calls("gocbcore.(*Agent).MutateIn"), calls("gocbcore.(*Agent).Set"), calls(couchbase.AsyncOp.Wait), calls(gocbcore.PendingOp.Cancel), calls(select.case), calls(couchbase.Client.GetMetaAgent), calls("couchbase.(*cbMembership).startHeartbeat"), calls("couchbase.(*cbMembership).startMonitor"), calls("time.(Time).UnixNano"), calls(EventBus.Bus.SubscribeAsync)
+//@ modifies calls("config.(*Dcp).GetCouchbaseMetadata"), calls("config.(*Dcp).GetCouchbaseMembership"), calls("couchbase.(*cbMembership).register"), calls("couchbase.(*cbMembership).createIndex"), calls("couchbase.CreatePath"), calls("couchbase.UpdateDocument"), calls("couchbase.CreateDocument"), calls("gocbcore.(*Agent).MutateIn"), calls("gocbcore.(*Agent).Set"), calls(couchbase.AsyncOp.Wait), calls(gocbcore.PendingOp.Cancel), calls(select.case), calls(couchbase.Client.GetMetaAgent), calls("couchbase.(*cbMembership).startHeartbeat"), calls("couchbase.(*cbMembership).startMonitor"), calls("time.(Time).UnixNano"), calls(EventBus.Bus.SubscribeAsync)
 
 // ---------- loading one vBucket's checkpoint document (C02, C14) ----------
 
@@ -151,3 +152,34 @@ package couchbase
 //@ ensures.result_is_what_the_readers_fill[C02] forall j int :: 0 <= j && j < len(vbIds) ==> captured(darg("go:couchbase.(*cbMetadata).Load$1", j, 0), "couchbase.(*cbMetadata).Load$1", "state") == result0
 //@ ensures.no_error[C02] result2 == nil && result0 != nil
 //@ modifies calls("go:couchbase.(*cbMetadata).Load$1")
+
+// The checkpoint store lives where the derived metadata settings say (scope / collection overrides, C17),
+// and talks through the client it was given.
+//@ func NewCBMetadata
+//@ params client config
+//@ props C17 C02
+//@ requires config != nil && logger.Log != nil
+//@ let derived = dret("config.(*Dcp).GetCouchbaseMetadata", 0, 0)
+//@ ensures.store_location[C17,C02] dcalls("config.(*Dcp).GetCouchbaseMetadata") == 1 && darg("config.(*Dcp).GetCouchbaseMetadata", 0, c) == config && typeis(result, "*cbMetadata") && as(result, "*cbMetadata").scopeName == derived.Scope && as(result, "*cbMetadata").collectionName == derived.Collection
+//@ ensures.wiring[C02] as(result, "*cbMetadata").client == client && as(result, "*cbMetadata").config == config
+//@ modifies calls("config.(*Dcp).GetCouchbaseMetadata")
+
+// The metadata connection is made with the derived metadata settings (C17): the source agent is shared only when
+// hosts and bucket coincide, a second bucket on the same hosts keeps the main credentials, other hosts use the
+// derived hosts / bucket / credentials.
+//@ func (*client).createMetadataAgent
+//@ params s couchbaseMetadataConfig
+//@ props C17
+//@ requires s != nil && s.config != nil && couchbaseMetadataConfig != nil
+//@ let same = dret("couchbase.(*client).isDcpAndMetadataSameHost", 0, 0)
+//@ ensures.shared_agent[C17] same && couchbaseMetadataConfig.Bucket == s.config.BucketName ==> result0 == s.agent && result1 == nil && dcalls("couchbase.CreateAgent") == 0
+//@ ensures.second_bucket_same_hosts[C17] same && couchbaseMetadataConfig.Bucket != s.config.BucketName ==> dcalls("couchbase.CreateAgent") == 1 && darg("couchbase.CreateAgent", 0, httpAddresses) == s.config.Hosts && darg("couchbase.CreateAgent", 0, bucketName) == couchbaseMetadataConfig.Bucket && darg("couchbase.CreateAgent", 0, username) == s.config.Username && darg("couchbase.CreateAgent", 0, password) == s.config.Password && darg("couchbase.CreateAgent", 0, maxQueueSize) == couchbaseMetadataConfig.MaxQueueSize && darg("couchbase.CreateAgent", 0, connectionBufferSize) == couchbaseMetadataConfig.ConnectionBufferSize && darg("couchbase.CreateAgent", 0, connectionTimeout) == couchbaseMetadataConfig.ConnectionTimeout
+//@ ensures.other_hosts[C17] !same ==> dcalls("couchbase.CreateAgent") == 1 && darg("couchbase.CreateAgent", 0, httpAddresses) == couchbaseMetadataConfig.Hosts && darg("couchbase.CreateAgent", 0, bucketName) == couchbaseMetadataConfig.Bucket && darg("couchbase.CreateAgent", 0, username) == couchbaseMetadataConfig.Username && darg("couchbase.CreateAgent", 0, password) == couchbaseMetadataConfig.Password && darg("couchbase.CreateAgent", 0, secureConnection) == couchbaseMetadataConfig.SecureConnection && darg("couchbase.CreateAgent", 0, rootCAPath) == couchbaseMetadataConfig.RootCAPath && darg("couchbase.CreateAgent", 0, connectionBufferSize) == couchbaseMetadataConfig.ConnectionBufferSize && darg("couchbase.CreateAgent", 0, connectionTimeout) == couchbaseMetadataConfig.ConnectionTimeout
+//@ ensures.result[C17] dcalls("couchbase.CreateAgent") == 1 ==> result0 == dret("couchbase.CreateAgent", 0, 0) && result1 == dret("couchbase.CreateAgent", 0, 1)
+//@ modifies calls("couchbase.CreateAgent"), calls("couchbase.(*client).isDcpAndMetadataSameHost"), calls("config.(*Dcp).GetCouchbaseMetadata")
+
+//@ extern couchbase.CreateAgent
+//@ modifies nothing
+
+//@ extern couchbase.(*client).isDcpAndMetadataSameHost
+//@ modifies nothing
